@@ -3,7 +3,7 @@
 From Coq Require Import List NArith ZArith Bool.
 From Common Require Import Lock.
 From Conc Require Import Lin LockedObject.
-From C35 Require Import Model Gen Checker Proofs ProofsPtr ProofsConc ProofsTop.
+From C35 Require Import Model Gen Checker Proofs ProofsT ProofsPtr ProofsConc ProofsTop.
 Import ListNotations.
 Local Open Scope N_scope.
 
@@ -29,6 +29,15 @@ Proof.
   rewrite <- abs_new. apply m_run_refines. apply minv_new.
 Qed.
 Print Assumptions C35_seq_refines.
+
+(* the recency list is "least recently used" said with time stamps: every hit and every put
+   stamps the entry with the current time, a put of a new key into a full cache evicts the entry
+   with the smallest stamp.  For every capacity and every sequence of gets and puts the two
+   specifications return the same results. *)
+Theorem C35_lru_by_time : forall (c : N) (ops : list op),
+  forallb getput ops = true -> r_run (r_new c) ops = t_run (t_new c) ops.
+Proof. intros c ops. apply r_run_t_run. apply RT_new. Qed.
+Print Assumptions C35_lru_by_time.
 
 (* ---- concurrency: with the lock modes read from the source, every complete interleaved
    history of any number of threads calling Get/Put (bodies interleaved at the granularity of
